@@ -234,6 +234,17 @@ class WriterOracles(Oracles):
             else:
                 self.put(it, "\u0001<unknown write>", args[0])
             return Adt(RESULT, 0, [Tup([])])
+        if name == "write" and tr.endswith("io::Write") and len(args) == 2:
+            # io::Write::write may accept only part of the buffer; this writer (a legal one) takes ONE byte per call and says so.  Code that
+            # uses the count (write_all, or a loop over the rest) still delivers everything; code that ignores it loses the rest.
+            b = bytes_of(it, args[1])
+            if b is None:
+                self.put(it, "\u0001<unknown write>", args[0])
+                return Adt(RESULT, 0, [Int(64, False, val=0)])
+            if not b:
+                return Adt(RESULT, 0, [Int(64, False, val=0)])
+            self.put(it, bytes(b[:1]).decode("utf-8", "replace"), args[0])
+            return Adt(RESULT, 0, [Int(64, False, val=1)])
         if name in ("write_all", "write_str") and len(args) == 2:
             b = bytes_of(it, args[1])
             self.put(it, bytes(b).decode("utf-8", "replace") if b is not None else "\u0001<unknown write>", args[0])
@@ -313,6 +324,8 @@ class ExportOracles(WriterOracles):
             return Int(64, False, val=self.K + 2)
         if path.endswith("DnaStringSlice::<'a>::to_dna_string") or (name == "to_dna_string"):
             return Opaque("String", {"dna-text"})
+        if name == "ascii" and args and isinstance(recv(it, args[0]), Opaque) and "seq" in recv(it, args[0]).tags:
+            return VecV([Int(8, False, val=c) for c in b"ACGT"])      # the node's sequence as ASCII bytes (same placeholder as the text form)
         if name in ("call", "call_mut", "call_once") and isinstance(recv(it, args[0]), Opaque):
             f = recv(it, args[0])
             if "fmt-fn" in f.tags:
@@ -466,6 +479,10 @@ def gfa_tables(F, rep, rule="C20.2"):
             if [l.split("\t")[1] for l in segs] != ["0", "1"] or not all(line_s.match(l) for l in segs):
                 problems.append("segment lines are %s; every node must be listed once with its sequence" % segs)
                 continue
+            if any(l.split("\t")[2] != "ACGT" for l in segs):
+                problems.append("segment lines are %s; every node must be listed with its WHOLE sequence (the scripted sequence text is ACGT; the writer used here, "
+                                "like any io::Write, may accept fewer bytes than offered by `write`)" % segs)
+                continue
             counts = {}
             bad = None
             for l in lines[1:]:
@@ -541,6 +558,7 @@ def serde_rules(F, rep, rule="C20.4", types=None):
         # a derived Deserialize that goes through a hand-written conversion (#[serde(try_from = ..)] / from = ..): the conversion is part of
         # reading back — it must accept every value the serializer writes and rebuild it field for field
         rep.run(serde_conversion, F, rep, rule, adt)
+        rep.run(serde_buffered_rule, F, rep, rule, adt)
         # every declared field is written by the derived serializer (no skipped field)
         a = F.adts.get(adt)
         ser = [b for b in F.fns.values() if b["path"].endswith("::serialize") and b.get("impl_self", "").split("<")[0] == adt and b.get("derived")]
@@ -577,6 +595,47 @@ def serde_rules(F, rep, rule="C20.4", types=None):
             else:
                 rep.violated(rule, adt + "/all-fields", "the serializer of %s writes %d of its %d fields: a skipped field is lost in a round trip" % (adt, n, nf),
                              witness={"kind": "field-count", "got": n, "spec": nf})
+
+
+def serde_buffered_rule(F, rep, rule, adt):
+    """Deserialize impls that go through serde's buffered `Content` (what #[serde(untagged)], internally / adjacently tagged enums and
+    #[serde(flatten)] expand to) cannot carry 128-bit integers — serde's documented limitation.  A type that holds k-mers (whose storage
+    may be u128: the crate exports Kmer40/48/64) and is read back through such an impl cannot be read back for those k-mer types."""
+    roots = [b for b in F.fns.values() if ("Deserialize<'de> for %s>" % adt) in b["path"] or ("Deserialize<'de> for %s<" % adt) in b["path"]]
+    if not roots:
+        return
+    a = F.adts.get(adt) or {}
+    generic_or_wide = "<" in (roots[0]["path"].split(" for ")[-1]) or any("128" in str(f.get("ty", "")) for v in a.get("variants", []) for f in v.get("fields", []))
+    seen, st, hit = set(), [b["path"] for b in roots], None
+    while st and hit is None:
+        p_ = st.pop()
+        if p_ in seen:
+            continue
+        seen.add(p_)
+        b = F.fns.get(p_)
+        if not b:
+            continue
+        for bb in b["blocks"]:
+            t = bb["t"]
+            if t.get("k") == "call" and "const" in t["f"] and "fn" in t["f"]["const"]:
+                fr = t["f"]["const"]["fn"]
+                q = fr.get("rpath") or fr.get("path") or ""
+                if "::de::content::Content" in q and "Deserialize<'de> for" in p_:
+                    hit = (p_, q)
+                    break
+                for q2 in (fr.get("rpath"), fr.get("path")):
+                    if q2 and q2 in F.fns and q2 not in seen:
+                        st.append(q2)
+    key = "%s/buffered-deserialize" % adt
+    if hit is None:
+        return
+    via = hit[0].split(" for ")[-1].split(">::")[0]
+    if generic_or_wide:
+        rep.violated(rule, key, "%s is read back through %s, whose Deserialize impl buffers the input in serde's `Content` (%s): that representation has no 128-bit "
+                     "integers, so a value holding k-mers with 128-bit storage (K > 32) that the serializer wrote cannot be read back" % (adt, via, hit[1].split("content::")[-1].split("::<")[0]),
+                     witness={"kind": "serde-buffered", "impl": hit[0]})
+    else:
+        rep.inconclusive(rule, key, "%s is read back through %s, whose Deserialize impl buffers the input in serde's `Content`" % (adt, via))
 
 
 def serde_conversion(F, rep, rule, adt):
